@@ -375,6 +375,45 @@ def t_long_end(m, fresh, f):
     return FP('longend(%s)' % f, f, f, [h], ok=False, rej=f, fail_hunks=[0])
 
 
+def failing_shapes(m, f):
+    """single failing hunks on file f in many shapes of mismatch (for the failure diagnostics and the reject writer):
+    a wrong line at each position, an extra or a missing line inside the context, context running past the end or
+    starting before the beginning of the file, all-foreign hunks, each with exact and far-off stated lines"""
+    if f not in m.t or len(m.t[f][0]) < 4:
+        return []
+    lines = m.t[f][0]
+    n = len(lines)
+    out = []
+
+    def add(label, old, start):
+        # the hunk replaces its middle line
+        k = len(old) // 2
+        body = [(' ', l) for l in old[:k]] + [('-', old[k]), ('+', b'REPL')] + [(' ', l) for l in old[k + 1:]]
+        h = Hunk(start, start, body)
+        out.append(FP('%s(%s)' % (label, f), f, f, [h], ok=False, rej=f, fail_hunks=[0]))
+    for width in (3, 5):
+        for s0 in range(0, n - width + 1):
+            seg = lines[s0:s0 + width]
+            for i in range(width):
+                bad = list(seg)
+                bad[i] = b'WRONG%d' % i
+                add('wrongline%d@%d' % (i, s0), bad, s0 + 1)
+            for i in range(1, width):
+                add('extraline%d@%d' % (i, s0), seg[:i] + [b'EXTRA'] + seg[i:], s0 + 1)
+            if width > 3:
+                for i in range(1, width - 1):
+                    add('missingline%d@%d' % (i, s0), seg[:i] + seg[i + 1:], s0 + 1)
+    for k in (1, 2, 3):
+        add('pasteof%d' % k, lines[n - 2:] + [b'BEYOND%d' % j for j in range(k)], n - 1)
+        add('beforebof%d' % k, [b'BEFORE%d' % j for j in range(k)] + lines[:2], 1)
+        add('whole+%d' % k, list(lines) + [b'BEYOND%d' % j for j in range(k)], 1)
+    for w in (1, 3, n + 2):
+        add('foreign%d' % w, [b'FOREIGN%d' % j for j in range(w)], 1)
+        add('foreign%d-far' % w, [b'FOREIGN%d' % j for j in range(w)], n + 10)
+    add('wrongline-far', [lines[0], b'WRONG', lines[2]], n + 5)
+    return out
+
+
 def t_misordered(m, fresh, f):
     """two hunks in the wrong order: the second one (for an earlier line) is refused as misordered"""
     if f not in m.t or len(m.t[f][0]) < 6:
